@@ -234,6 +234,10 @@ class Build:
             return self.M(r[1])[r[2], :]
         if k == "mcol":
             return self.M(r[1])[:, r[2]]
+        if k == "mrowpart":   # A[i, a:b:s]
+            return self.M(r[1])[r[2], slice(*r[3])]
+        if k == "mcolpart":   # A[a:b:s, j]
+            return self.M(r[1])[slice(*r[3]), r[2]]
         if k == "mdiag":
             how = r[2] if len(r) > 2 else "method"
             return self.M(r[1]).diagonal() if how == "method" else optyx.diag(self.M(r[1]))
@@ -494,6 +498,10 @@ class Ref:
             return self.M(r[1])[r[2], :]
         if k == "mcol":
             return self.M(r[1])[:, r[2]]
+        if k == "mrowpart":
+            return self.M(r[1])[r[2], slice(*r[3])]
+        if k == "mcolpart":
+            return self.M(r[1])[slice(*r[3]), r[2]]
         if k == "mdiag":
             m = self.M(r[1])
             return np.array([m[i, i] for i in range(m.shape[0])], dtype=object)
@@ -698,7 +706,7 @@ def used_vars(r):
 
 def kind_of(r):
     k = r[0]
-    if k in ("vec", "slice", "vbin", "vrbin", "vneg", "vpow", "vun", "matvec", "mrow", "mcol", "mdiag", "Mmatvec", "vexpr"):
+    if k in ("vec", "slice", "vbin", "vrbin", "vneg", "vpow", "vun", "matvec", "mrow", "mcol", "mrowpart", "mcolpart", "mdiag", "Mmatvec", "vexpr"):
         return "V"
     if k in ("mat", "mT", "mslice", "mbin", "mrbin", "mneg"):
         return "M"
